@@ -262,7 +262,9 @@ Flat(d) == FlattenSeq(s.wire[d])
 \* in order, exactly once: what was written followed by what is queued is the abstract FIFO
 FifoOnce == \A d \in Dest : Flat(d) \o s.q[d] = s.aout[d]
 \* normal datapoints keep their arrival order at each destination
-NormalOrder == \A d \in Dest :
+\* (with replication AND the dynamic router a removed destination's copy of a datapoint is re-routed to a destination that
+\* may already hold the other copy: two separate acceptances into that queue, each written once - not judged here)
+NormalOrder == (RF = 1 \/ ~Dynamic) => \A d \in Dest :
    LET nm == SelectSeq(s.aout[d], LAMBDA x : x \notin hi)
    IN \A a, b \in 1..Len(nm) : a < b => nm[a] # nm[b]
 DropsCounted == /\ \A d \in Dest : s.drops[d] = Cardinality({k \in 1..Len(s.dropped) : s.dropped[k][2] = d})
